@@ -5,6 +5,7 @@
     writer with a recording short pipeline; [check_case] recomputes the model's
     answer for the same inputs. *)
 From Coq Require Import List NArith ZArith Bool.
+From Coq Require String Ascii.
 Import ListNotations.
 Require Import Aurora.Base.Corr Aurora.Consts Aurora.C08.Model.
 Local Open Scope N_scope.
@@ -13,16 +14,33 @@ Definition chunk : N := Z.to_N Consts.boson_ChunkSize.
 Definition refsize : N := Z.to_N (Consts.boson_HashSize + Consts.encryption_KeyLength).
 Definition hashsize : nat := Z.to_nat Consts.boson_HashSize.
 
-(** toy hash, the same function as [toyHash] in harness/cmd/c08/main.go *)
-Definition toy_acc (l : list N) : N := fold_left (fun a b => (a * 131 + b + 1) mod W32) l 7.
-Definition toy_hash (hlen : nat) (l : list N) : list N :=
-  let a := toy_acc l in
-  map (fun j => ((((a + N.of_nat j * 2654435761) mod W32) * 2246822507) mod W32) / 16777216) (seq 0 hlen).
+(** byte strings are written by the harness as hex string literals (a list of
+    several hundred [N] literals per case is slow to parse) *)
+Definition hexval (c : Ascii.ascii) : N :=
+  let n := Ascii.N_of_ascii c in
+  if n <? 58 then n - 48 else if n <? 71 then n - 55 else n - 87.
+Fixpoint hex (s : String.string) : list N :=
+  match s with
+  | String.String a (String.String b r) => (16 * hexval a + hexval b) :: hex r
+  | _ => []
+  end.
 
-Definition digest (l : list N) : N := fold_left (fun a b => (a * 1000003 + b + 1) mod 2305843009213693951) l 0.
+(** toy hash, the same function as [toyHash] in harness/cmd/c08/main.go
+    (uint32 arithmetic; written with bit operations, which vm_compute evaluates
+    much faster than [mod]/[/]) *)
+Definition m32 (x : N) : N := N.land x 4294967295.
+Definition toy_acc (l : list N) : N := fold_left (fun a b => m32 (a * 131 + b + 1)) l 7.
+Fixpoint toy_out (a : N) (n : nat) (jk : N) : list N :=
+  match n with
+  | O => []
+  | S k => N.land (N.shiftr (m32 (m32 (a + jk) * 1029)) 16) 255 :: toy_out a k (jk + 2654435761)
+  end.
+Definition toy_hash (hlen : nat) (l : list N) : list N := toy_out (toy_acc l) hlen 0.
+
+Definition digest (l : list N) : N := fold_left (fun a b => N.land (a * 33 + b + 1) 281474976710655) l 0.
 (** deterministic payload pattern, the same as [pattern] in the harness *)
 Fixpoint pattern_from (seed : N) (n : nat) (i : N) : list N :=
-  match n with O => [] | S k => (seed + i * 7 + i / 251) mod 256 :: pattern_from seed k (i + 1) end.
+  match n with O => [] | S k => N.land (seed + i * 7 + N.shiftr i 8) 255 :: pattern_from seed k (i + 1) end.
 Definition pattern (seed len : N) : list N := pattern_from seed (N.to_nat len) 0.
 
 Inductive robs (A : Type) : Type := ROk (a : A) | RErr | RPanic | RHang.
